@@ -18,6 +18,12 @@ pub axiom fn axiom_parse_u64_needs_digits(t: Seq<char>)
     ensures t.len() > 0, forall|i: int| 0 <= i < t.len() ==> is_ascii_digit_c(#[trigger] t[i]) || (i == 0 && t[0] == '+');
 
 
+// TRUSTED[parse-u64-canonical-text]: a canonical decimal text (digits, no leading zero unless it is "0") that parses as u64 is the decimal text of
+// the parsed number (std: Display for u64 is the inverse of FromStr on canonical numerals).
+pub axiom fn axiom_parse_u64_canonical(t: Seq<char>)
+    requires parse_spec::<u64>(t) is Some, t.len() > 0, forall|i: int| 0 <= i < t.len() ==> is_ascii_digit_c(#[trigger] t[i]), t.len() == 1 || t[0] != '0'
+    ensures dec(parse_spec::<u64>(t)->0 as nat) == t;
+
 // TRUSTED[parse-u32-of-decimal-text]: `t.parse::<u32>()` of a decimal text gives the number when it fits in 32 bits and fails otherwise
 // (std: FromStr for u32 reports overflow as an error).
 pub broadcast axiom fn axiom_parse_u32_dec(n: u64)
